@@ -73,14 +73,16 @@ def items_src(items, root, ind, classes, ctx):
 def class_src(name, c, classes):
     lines = ["@vsc.randobj", "class %s(object):" % name, "    def __init__(self):",
              "        self.a = vsc.rand_uint8_t()", "        self.b = vsc.rand_uint8_t()",
-             "        self.l = vsc.rand_list_t(vsc.uint8_t(), sz=2)", "        self.u = vsc.uint8_t(0)"]
+             "        self.l = vsc.rand_list_t(vsc.uint8_t(), sz=2)", "        self.u = vsc.uint8_t(0)",
+             "        self.r = vsc.randsz_list_t(vsc.uint8_t())"]
     lines += items_src(c["init"], "self", 2, classes, "init")
     for i, b in enumerate(c["blocks"]):
         lines += ["    @vsc.%s" % ("dynamic_constraint" if i in c.get("dynamic", []) else "constraint"), "    def c%d(self):" % i]
         body = items_src(b, "self", 2, classes, "block")
         lines += body if body else ["        pass"]
     # a block that makes the object unsatisfiable when the non-random field u is set
-    lines += ["    @vsc.constraint", "    def zz_unsat(self):", "        with vsc.implies(self.u == 1):", "            self.a > 250", "            self.a < 3"]
+    lines += ["    @vsc.constraint", "    def zz_unsat(self):", "        with vsc.implies(self.u == 1):", "            self.a > 250", "            self.a < 3",
+              "        self.r.size.inside(vsc.rangelist((1, 4)))"]
     lines += ["    def pre_randomize(self):", "        _hook(self, 'pre')", "    def post_randomize(self):", "        _hook(self, 'post')"]
     return "\n".join(lines)
 
@@ -106,6 +108,10 @@ def leftovers(objs):
     out = []
 
     def walk(m, acc):
+        if hasattr(m, "is_rand_sz") and getattr(m, "is_scalar", False):
+            # a scalar list holds exactly as many element models as its size says (no extension element of a call left)
+            if len(m.field_l) != int(m.size.get_val()):
+                acc["list_mismatch"] += 1
         for f in getattr(m, "field_l", []):
             if getattr(f, "var", None) is not None:
                 acc["vars"] += 1
@@ -118,7 +124,7 @@ def leftovers(objs):
         if o is None:
             out.append(None)
             continue
-        acc = {"vars": 0, "stmts": 0, "blocks": 0, "overrides": 0}
+        acc = {"vars": 0, "stmts": 0, "blocks": 0, "overrides": 0, "list_mismatch": 0}
         walk(o.get_model(), acc)
         out.append(acc)
     return out
@@ -182,6 +188,8 @@ def run(sc, twin):
     ns = {"vsc": vsc, "_probe": _probe, "_hook": _hook}
     for name in sc["class_order"]:
         exec(class_src(name, sc["classes"][name], sc["classes"]), ns)
+    exec("@vsc.covergroup\nclass _BadCg(object):\n    def __init__(self):\n        self.with_sample(dict(a=vsc.bit_t(8)))\n"
+         "        self.cp = vsc.coverpoint(self.a, iff=5)\n", ns)
     objs = []
     recs = []
     for call in sc["calls"]:
@@ -192,6 +200,12 @@ def run(sc, twin):
                 objs.append(None)
             recs.append(None)
             continue
+        if call.get("cg_fault") and not twin:
+            # a covergroup whose construction is rejected (a bad iff argument) - must leave nothing behind either
+            try:
+                ns["_BadCg"]()
+            except Exception:  # noqa
+                pass
         del TRACE[:]
         ARMED[0] = None if twin else call.get("fault")
         HOOKS["pre"] = call.get("pre", [])
